@@ -22,6 +22,8 @@ fn setup_mixed(p: &Project) {
   // settings for the embedded ranges) must not reach the next file it takes
   p.rule("js.yml", &json!({"id": "lang-js", "language": "JavaScript", "severity": "error", "message": "m", "rule": {"pattern": "foo($A)"}}));
   p.rule("css.yml", &json!({"id": "lang-css", "language": "Css", "severity": "error", "message": "m", "rule": {"kind": "declaration"}}));
+  // a language whose ONLY rule is confined by a glob: its files are still files of the tree
+  p.rule("py.yml", &json!({"id": "lang-py", "language": "Python", "severity": "error", "message": "m", "rule": {"pattern": "foo($A)"}, "files": ["**/*.py"]}));
 }
 
 pub fn drive(seed: u64, outdir: &str, thorough: bool) {
@@ -47,7 +49,7 @@ pub fn drive(seed: u64, outdir: &str, thorough: bool) {
     for i in 0..n_files {
       let dir = if big { format!("d{}/", i % 17) } else { ["", "a/", "a/b/", "c/"][rng.below(4)].to_string() };
       // in a lonely tree the file with the finding is first, in the middle or last by name
-      let path = if mixed { format!("{}m{i}.{}", ["", "a/", "a/b/"][i % 3], if i % 4 == 3 { "html" } else if (i * 7 / 3) % 2 == 0 { "ts" } else { "view.ts" }) }
+      let path = if mixed { format!("{}m{i}.{}", ["", "a/", "a/b/"][i % 3], if i % 4 == 3 { "html" } else if i % 6 == 4 { "py" } else if (i * 7 / 3) % 2 == 0 { "ts" } else { "view.ts" }) }
         else if lonely && i == 0 { format!("src/{}.js", ["a0", "m", "zz"][n_trees - 2 - tree]) }
         else if lonely { format!("src/f{i}.js") } else { format!("{dir}f{i}.js") };
       // the first small tree always carries one file beyond the size limit with few lines (eligible: the limit is
@@ -57,6 +59,8 @@ pub fn drive(seed: u64, outdir: &str, thorough: bool) {
       let fault = if lonely || mixed { "ok" } else { fault };
       let content: Vec<u8> = if mixed && i % 4 == 3 {
         format!("<html><head><style>\na {{ color: red }}\n</style></head>\n<body><p>foo(text {i})</p>\n<script>\nfoo({i});\n</script></body></html>\n").into_bytes()
+      } else if mixed && i % 6 == 4 {
+        format!("# file {i}\nfoo({i})\n").into_bytes()
       } else if mixed {
         format!("// file {i}\nfoo({i});\nconst v = <T,>(x: T) => x;\n").into_bytes()
       } else if lonely {
